@@ -130,6 +130,10 @@ pub struct Case {
     /// only; 3 = dissemination delivered part of every slice, repair the rest
     #[serde(default)]
     pub responder_history: u8,
+    /// the requester already holds this many disseminated shreds (per slice) of *another* block
+    /// the same leader signed for the slot when it is asked to repair the block
+    #[serde(default)]
+    pub requester_conflicting_shreds: u8,
 }
 
 pub struct C14;
@@ -186,8 +190,8 @@ impl Property for C14 {
             2 => Just(Reaction::LeaderSignedOtherFlag),
             2 => Just(Reaction::LeaderSignedOtherData),
         ];
-        (block, prop::collection::vec(reaction, 1..40), 0u8..=3, prop::collection::vec((0u8..3, prop_oneof![4 => 0u16..4, 1 => 0u16..1024], 0u8..64, prop::bool::weighted(0.8), prop::bool::weighted(0.85)), 0..8), prop_oneof![3 => Just(0u8), 2 => Just(1u8), 1 => Just(2u8), 1 => Just(3u8)])
-            .prop_map(|(block, script, max_hostile, probes, responder_history)| Case { block, script, max_hostile, probes, responder_history })
+        (block, prop::collection::vec(reaction, 1..40), 0u8..=3, prop::collection::vec((0u8..3, prop_oneof![4 => 0u16..4, 1 => 0u16..1024], 0u8..64, prop::bool::weighted(0.8), prop::bool::weighted(0.85)), 0..8), prop_oneof![3 => Just(0u8), 2 => Just(1u8), 1 => Just(2u8), 1 => Just(3u8)], prop_oneof![3 => Just(0u8), 1 => 1u8..=31])
+            .prop_map(|(block, script, max_hostile, probes, responder_history, requester_conflicting_shreds)| Case { block, script, max_hostile, probes, responder_history, requester_conflicting_shreds })
             .boxed()
     }
     fn run(&self, case: &Case) -> Outcome {
@@ -305,7 +309,17 @@ async fn run(case: &Case) -> Outcome {
 
     // --- requester node (validator 2)
     let (req_events_tx, mut req_events) = tokio::sync::mpsc::channel(4096);
-    let req_store: alpenglow::consensus::SharedBlockstore = Arc::new(RwLock::new(alpenglow::consensus::BlockstoreImpl::new(req_events_tx)));
+    let mut req_store_inner = alpenglow::consensus::BlockstoreImpl::new(req_events_tx);
+    if case.requester_conflicting_shreds > 0 {
+        // dissemination delivered part of the leader's *other* block for this slot
+        out.label("requester-holds-shreds-of-another-block");
+        for bs in &other.slices {
+            for s in bs.shreds.iter().take((case.requester_conflicting_shreds as usize).min(31)) {
+                let _ = req_store_inner.add_shred_from_dissemination(s.clone()).await;
+            }
+        }
+    }
+    let req_store: alpenglow::consensus::SharedBlockstore = Arc::new(RwLock::new(req_store_inner));
     let rec_pool = RecPool::default();
     let registered = rec_pool.blocks.clone();
     let pool: alpenglow::consensus::SharedPool = Arc::new(RwLock::new(rec_pool));
@@ -350,8 +364,10 @@ async fn run(case: &Case) -> Outcome {
             }
         }
         while let Ok(e) = req_events.try_recv() {
+            // (a block completed by dissemination - the leader's other block - is not repair's doing)
             if let BlockstoreEvent::Block { block_info, .. } = &e
                 && block_info.verif_hash() != &h
+                && block_info.verif_hash() != &other.hash
             {
                 out.violate("C14/block-announced-with-wrong-hash", format!("{e:?}"));
             }
